@@ -62,6 +62,10 @@ int main() {
       else if (op == "deserbad") {    // deserialisation from a stream holding only 6 bytes: first word and a half overwritten, rest kept
         is >> h; std::string six("\x11\x22\x33\x44\x55\x66", 6); std::istringstream st(six); s[h]->deserialize_manually(st);
       }
+      else if (op == "createbad") {   // construction whose polynomial constructor throws (wrong list length): nothing may be left behind
+        is >> h; std::vector<uint32_t> vals(11, 9u);
+        try { s[h] = new P(vals.begin(), vals.end()); os << " NOTHROW"; } catch (std::runtime_error const&) { s[h] = 0; }
+      }
       else if (op == "fma") { is >> h >> g >> k; *s[h] = *s[h] + *s[g] * *s[k]; }                  // destination read inside a nested expression
       else if (op == "ilbad") {       // initializer-list assignment of a wrong length: throws, value must survive
         is >> h; try { *s[h] = {1u, 2u, 3u, 4u, 5u, 6u, 7u, 8u, 9u, 10u, 11u}; os << " NOTHROW"; } catch (std::runtime_error const&) {}
